@@ -14,6 +14,9 @@ from sim.vclock import Proc, VClock
 from sim.vloop import VLoop, pending_tasks
 
 
+PROCESSOR_RAISED = []  # the plug-in's track processor raised in on_prepare_track (reset per run by the harness)
+
+
 class SimParamSource:
     """Track-plugin style parameter source (registered by name ``sim-params``): unique path per
     request, optional size (finite source), CPU cost per ``params()`` call, optional failure."""
